@@ -4898,9 +4898,9 @@ HO_SYNS = ['GPL-2+', 'MIT', 'Apache-2.0 or GPL-2', 'Expat', 'GPL-2+ with OpenSSL
 HO_TAILS = ['', '', '', ' éü', ' — 中文', ' (c)', ' <a@b.example>', ' 1.', ' ..', ' -- x']
 
 
-def ho_lines(t):
+def ho_lines(t, salt=''):
     unit, n, num = t['unit'], t['n'], t.get('num')
-    out = ['Begin of text']
+    out = ['Begin of text' + salt]
     for k in range(n):
         for j, l in enumerate(unit):
             out.append(l + (' %d' % k if (num and j == 0) else ''))
@@ -4983,6 +4983,8 @@ def handout_in_domain(case):
     try:
         texts = case['texts']
         if not isinstance(texts, list) or not texts:
+            return False
+        if not re.match(r'^( s[0-9]{1,6})?$', case.get('salt', '')):
             return False
         for t in texts:
             if not isinstance(t['n'], int) or not 1 <= t['n'] <= 200000 or not isinstance(t['unit'], list) or not t['unit']:
@@ -5067,12 +5069,18 @@ def _ho_diff(exp, got):
         len(got), len(exp), ascii(got[0])[:80] if got else None, ascii(got[-1])[:80] if got else None)
 
 
-def check_handout(case, stats=None):
-    """[(key, msg)]"""
+def check_handout(case, stats=None, quiet=False):
+    """[(key, msg)].  quiet: the K.codec contract on format_multiline_lines does not evaluate during this execution
+    (its re-entrancy guard is held), so that this oracle names what the documents and helpers show."""
     from debian import copyright
+    from .. import contracts
+    if quiet:
+        contracts._DEPTH[0] += 1
     try:
         return _check_handout(case, copyright, stats if stats is not None else {})
     finally:
+        if quiet:
+            contracts._DEPTH[0] -= 1
         _close_scratch()
 
 
@@ -5118,7 +5126,7 @@ def _ho_read_doc(doc, expected, where, sfx, out, stats):
 
 def _check_handout(case, copyright, stats):
     out = []
-    texts = [ho_lines(t) for t in case['texts']]
+    texts = [ho_lines(t, case.get('salt', '')) for t in case['texts']]
     encs = [ho_encode(L) for L in texts]
     kept = []               # [built doc, parsed doc, expected, dump text]
     handed = {}             # (helper, ti) -> number of calls so far
@@ -5284,9 +5292,16 @@ def _check_handout(case, copyright, stats):
     return out
 
 
+_HO_SALT = [0]
+
+
 def shrink_handout(case, key, budget=60):
     def fails(c):
-        return handout_in_domain(c) and any(k == key for k, _m in check_handout(c))
+        # the library may remember texts it has seen: every candidate is executed with texts (first line salted) this
+        # process has not used before, so that a candidate only fails on its own account
+        _HO_SALT[0] += 1
+        c['salt'] = ' s%d' % _HO_SALT[0]
+        return handout_in_domain(c) and any(k == key for k, _m in check_handout(c, quiet=True))
     cur = case
     changed = True
     while changed and budget > 0:
@@ -5322,7 +5337,9 @@ def run_handout(ctx, case):
         ctx.count('handout:outside-domain')
         return
     stats = {}
-    found = check_handout(case, stats)
+    # the K.codec contract stays silent inside these cases (the same law is judged here, step by step, with the
+    # caller's changes in between; a contract raising half-way would leave the case un-shrunk)
+    found = check_handout(case, stats, quiet=True)
     ctx.mon('M.handout')
     ctx.mon('M.handout.helper', stats.get('helper', 0))
     ctx.mon('M.handout.doc', stats.get('docs', 0))
@@ -5352,7 +5369,7 @@ def run_handout(ctx, case):
         if ctx.viol_count[key] < 3 and not ctx.replay:
             try:
                 small = shrink_handout(case, key)
-                again = [m for k, m in check_handout(small) if k == key]
+                again = [m for k, m in check_handout(small, quiet=True) if k == key]
                 if again:
                     msg = again[0]
                 else:
@@ -5377,7 +5394,7 @@ def standalone(case):
     if kind == 'lists':
         return [k for k, _m, _i in check_lists(case)] if lists_in_domain(case) else []
     if kind == 'handout':
-        return [k for k, _m in check_handout(case)] if handout_in_domain(case) else []
+        return [k for k, _m in check_handout(case, quiet=True)] if handout_in_domain(case) else []
     return []
 
 
